@@ -146,3 +146,42 @@ def resolve_trace(case, result):
     if not any(x["ev"] == "result" for x in out):
         out.append({"ev": "result", "case": case, "ok": False, "iters": 0})
     return out
+
+
+def layout_event(case, result):
+    """-> one event for TraceLayout (or None when the resolver did not succeed)."""
+    events = result.get("events") or []
+    if not any(e.get("ev") == "resolved" for e in events):
+        return None
+    banks = banks_of(result)
+    # items of the final pass
+    last_start = None
+    for i, e in enumerate(events):
+        if e.get("ev") == "pass":
+            last_start = i
+    items = []
+    for e in events[last_start + 1:]:
+        if e.get("ev") != "node":
+            continue
+        k = e["kind"]
+        base = {"bank": e["bank"] + 1, "pos": e["pos"]}
+        if e["pos"] >= BIG:
+            raise Unjudged("wide cursor")
+        if k == "label":
+            items.append(dict(base, kind="l", size=0, bits=[]))
+        elif k in ("instr", "data"):
+            if e["size"] is None or e["size"] >= (1 << 20):
+                raise Unjudged("wide item")
+            items.append(dict(base, kind="w", size=e["size"], bits=[1 if c == "1" else 0 for c in (e["bits"] or "")]))
+        elif k == "res":
+            items.append(dict(base, kind="r", size=_int(e["res"], "reservation"), bits=[]))
+    accepted = any(e.get("ev") == "output_built" for e in events)
+    ev = {"ev": "layout", "case": case, "banks": banks, "items": items, "accepted": accepted,
+          "out": [], "spans": []}
+    if accepted:
+        if result.get("len", 0) >= (1 << 20):
+            raise Unjudged("long output")
+        ev["out"] = [1 if c == "1" else 0 for c in result.get("bits", "")]
+        ev["spans"] = [{"offset": -1 if s["offset"] is None else s["offset"], "size": s["size"],
+                        "addr": _int(s["addr"], "span address")} for s in result.get("spans", [])]
+    return ev
